@@ -293,6 +293,46 @@ type c34Obs struct {
 	foreign                           string // a vote / P-Rep outside the closed universe (harness error)
 	// timers registered for the heights height+1 .. height+c34Horizon: height -> universe indices
 	unstakeTimers, unbondTimers map[int64][]int
+	corrupt                     []string // structurally broken real state (judged as a violation)
+}
+
+const c34NilEntry = -2
+
+// digest renders everything observed, for the persistence (older state unchanged) oracle.
+func (o *c34Obs) digest() string {
+	var sb strings.Builder
+	fmt.Fprintf(&sb, "h=%d supply=%s ts=%s td=%s tb=%s\n", o.height, o.supply, o.totalStake, o.totalDeleg, o.totalBond)
+	for i := range o.acct {
+		a := &o.acct[i]
+		fmt.Fprintf(&sb, "a%d bal=%s stake=%s us=%s ub=", i, a.bal, a.stake, c34FmtLocks(a.unstakes))
+		for _, u := range a.unbonds {
+			fmt.Fprintf(&sb, "%d:%s@%d ", u.To, u.Value, u.Expire)
+		}
+		sb.WriteString(" d=")
+		for _, v := range a.deleg {
+			fmt.Fprintf(&sb, "%d:%s ", v.To, v.Amt)
+		}
+		sb.WriteString(" b=")
+		for _, v := range a.bonds {
+			fmt.Fprintf(&sb, "%d:%s ", v.To, v.Amt)
+		}
+		fmt.Fprintf(&sb, " is=%s rec=%v/%v/%v\n", a.iscore, a.recUnbond, a.recBond, a.recDeleg)
+	}
+	for _, p := range o.preps {
+		fmt.Fprintf(&sb, "p%d act=%v d=%s b=%s\n", p.owner, p.active, p.delegated, p.bonded)
+	}
+	for _, m := range []map[int64][]int{o.unstakeTimers, o.unbondTimers} {
+		hs := make([]int64, 0, len(m))
+		for h := range m {
+			hs = append(hs, h)
+		}
+		sort.Slice(hs, func(i, j int) bool { return hs[i] < hs[j] })
+		for _, h := range hs {
+			fmt.Fprintf(&sb, "t%d=%v ", h, m[h])
+		}
+		sb.WriteString("|")
+	}
+	return sb.String()
 }
 
 func (w *c34World) observe(sim *simulatorImpl) *c34Obs {
@@ -302,11 +342,34 @@ func (w *c34World) observe(sim *simulatorImpl) *c34Obs {
 		totalDeleg: new(big.Int).Set(es.State.GetTotalDelegation()),
 		totalBond:  new(big.Int).Set(es.State.GetTotalBond())}
 	o.acct = make([]c34Acct, len(w.universe))
+	isNil := func(a module.Address) bool {
+		if a == nil {
+			return true
+		}
+		if p, ok := a.(*common.Address); ok && p == nil {
+			return true
+		}
+		return false
+	}
 	find := func(a module.Address) int {
+		if isNil(a) {
+			o.corrupt = append(o.corrupt, "nil address in an account's vote/unbond list or P-Rep list")
+			return c34NilEntry
+		}
 		if i, ok := w.idx[icutils.ToKey(a)]; ok {
 			return i
 		}
 		o.foreign = a.String()
+		return -1
+	}
+	// timer lists are judged by the oracle: a nil or unknown element is just a wrong element
+	findT := func(a module.Address) int {
+		if isNil(a) {
+			return c34NilEntry
+		}
+		if i, ok := w.idx[icutils.ToKey(a)]; ok {
+			return i
+		}
 		return -1
 	}
 	for i, addr := range w.universe {
@@ -344,15 +407,17 @@ func (w *c34World) observe(sim *simulatorImpl) *c34Obs {
 	for h := o.height + 1; h <= o.height+c34Horizon; h++ {
 		if ts := es.State.GetUnstakingTimerSnapshot(h); ts != nil {
 			for it := ts.Iterator(); it.Has(); it.Next() {
-				if a, ok := it.Get(); ok {
-					o.unstakeTimers[h] = append(o.unstakeTimers[h], find(a))
+				if a, ok := it.Get(); ok || true {
+					_ = ok
+					o.unstakeTimers[h] = append(o.unstakeTimers[h], findT(a))
 				}
 			}
 		}
 		if ts := es.State.GetUnbondingTimerSnapshot(h); ts != nil {
 			for it := ts.Iterator(); it.Has(); it.Next() {
-				if a, ok := it.Get(); ok {
-					o.unbondTimers[h] = append(o.unbondTimers[h], find(a))
+				if a, ok := it.Get(); ok || true {
+					_ = ok
+					o.unbondTimers[h] = append(o.unbondTimers[h], findT(a))
 				}
 			}
 		}
@@ -378,7 +443,41 @@ const (
 	c34OpGo1
 	c34OpGoTermEnd
 	c34OpGoTimer
+	c34OpStakeReverted // setStake executed inside a frame that is rolled back afterwards
 )
+
+// c34GoByBlockReverted is simulatorImpl.GoByBlock for one transaction whose enclosing frame fails
+// AFTER the call returned (a SCORE that calls setStake and then reverts, out of step, ...): the
+// world state is rolled back to the snapshot taken before the transaction, exactly as GoByBlock
+// (and the service) do for a failed transaction.
+func c34GoByBlockReverted(sim *simulatorImpl, tx Transaction) error {
+	wss := sim.wss
+	blockHeight := sim.blockHeight + 1
+	wc := NewWorldContext(newWorldState(wss, false), blockHeight, sim.Revision(), nil, sim.stepPrice)
+	if err := sim.onExecutionBegin(wc); err != nil {
+		return err
+	}
+	if _, err := sim.onBaseTx(wc); err != nil {
+		return err
+	}
+	snap := wc.GetSnapshot()
+	cc := NewCallContext(wc, tx.From())
+	_ = sim.executeTx(cc, tx)
+	if err := wc.Reset(snap); err != nil {
+		return err
+	}
+	if err := sim.onExecutionEnd(wc); err != nil {
+		return err
+	}
+	wss = wc.GetSnapshot()
+	if err := wss.Flush(); err != nil {
+		return err
+	}
+	sim.onFinalize(wss)
+	sim.wss = wss
+	sim.blockHeight = blockHeight
+	return nil
+}
 
 type c34Op struct {
 	Name  string
@@ -408,6 +507,8 @@ func c34Alphabet() []c34Op {
 		c34Op{Name: "V.setStake(2)", Kind: c34OpStake, Who: 1, Icx: 2},
 		c34Op{Name: "V.setDelegation()", Kind: c34OpDelegate, Who: 1},
 		c34Op{Name: "V.setDelegation(p0:2)", Kind: c34OpDelegate, Who: 1, Votes: [][2]int{{0, 2}}},
+		c34Op{Name: "U.setStake(3)-then-frame-reverts", Kind: c34OpStakeReverted, Who: 0, Icx: 3},
+		c34Op{Name: "U.setStake(0)-then-frame-reverts", Kind: c34OpStakeReverted, Who: 0, Icx: 0},
 		c34Op{Name: "U.transfer(V,1)", Kind: c34OpTransfer, Who: 0, Icx: 1},
 		c34Op{Name: "V.transfer(U,1)", Kind: c34OpTransfer, Who: 1, Icx: 1},
 		c34Op{Name: "gov.disqualifyPRep(p0)", Kind: c34OpDisqualify},
@@ -435,7 +536,7 @@ func (w *c34World) apply(sim *simulatorImpl, op *c34Op, pre *c34Obs, st *c34Stat
 	var tx Transaction
 	blocks := int64(1)
 	switch op.Kind {
-	case c34OpStake:
+	case c34OpStake, c34OpStakeReverted:
 		tx = sim.SetStake(from, c34Icx(op.Icx))
 	case c34OpDelegate:
 		ds := icstate.Delegations{}
@@ -497,8 +598,15 @@ func (w *c34World) apply(sim *simulatorImpl, op *c34Op, pre *c34Obs, st *c34Stat
 		}
 		var rcpts []Receipt
 		var err error
-		if p := ev.Catch(func() { rcpts, err = sim.GoByBlock(nil, blk) }); p != "" {
-			viol = append(viol, c34Viol{"block-execution-panic", fmt.Sprintf("%s at height %d: %s", op.Name, cur.height+1, p)})
+		reverted := btx != nil && op.Kind == c34OpStakeReverted
+		if p := ev.Catch(func() {
+			if reverted {
+				err = c34GoByBlockReverted(sim, btx)
+			} else {
+				rcpts, err = sim.GoByBlock(nil, blk)
+			}
+		}); p != "" {
+			viol = append(viol, c34Viol{"panic:" + c34PanicClass(p), fmt.Sprintf("%s: block %d panicked: %s", op.Name, cur.height+1, p)})
 			return cur, viol, true, nil
 		}
 		if err != nil {
@@ -506,7 +614,7 @@ func (w *c34World) apply(sim *simulatorImpl, op *c34Op, pre *c34Obs, st *c34Stat
 			return cur, viol, true, nil
 		}
 		ok := false
-		if btx != nil {
+		if btx != nil && !reverted {
 			ok = rcpts[1].Status() == Success
 			if ok {
 				st.txOK++
@@ -516,6 +624,9 @@ func (w *c34World) apply(sim *simulatorImpl, op *c34Op, pre *c34Obs, st *c34Stat
 		}
 		st.blocks++
 		nxt := w.observe(sim)
+		for _, c := range nxt.corrupt {
+			viol = append(viol, c34Viol{"corrupt-state:" + c34ErrClass(fmt.Errorf("%s", c)), fmt.Sprintf("%s: after block %d: %s", op.Name, nxt.height, c)})
+		}
 		if check {
 			var o *c34Op
 			if btx != nil {
@@ -532,6 +643,14 @@ func (w *c34World) apply(sim *simulatorImpl, op *c34Op, pre *c34Obs, st *c34Stat
 		}
 	}
 	return cur, viol, true, nil
+}
+
+// c34PanicClass: first line of a panic text, numbers stripped.
+func c34PanicClass(p string) string {
+	if i := strings.IndexByte(p, '\n'); i >= 0 {
+		p = p[:i]
+	}
+	return c34ErrClass(fmt.Errorf("%s", p))
 }
 
 // c34ErrClass strips the numbers from an error text so that it can serve as a narrow signature.
@@ -980,12 +1099,22 @@ func (w *c34World) check(pre, post *c34Obs, op *c34Op, ok bool, who int, st *c34
 			}
 		}
 		have := map[hk]bool{}
+		var msgs []string
 		for th, as := range timers {
 			for _, a := range as {
+				switch {
+				case a == c34NilEntry:
+					msgs = append(msgs, fmt.Sprintf("%s-timer-nil-entry|the %s timer of height %d contains a nil address: %v", kind, kind, th, as))
+					continue
+				case a < 0:
+					msgs = append(msgs, fmt.Sprintf("%s-timer-foreign-entry|the %s timer of height %d contains an unknown address", kind, kind, th))
+					continue
+				case have[hk{th, a}]:
+					msgs = append(msgs, fmt.Sprintf("%s-timer-duplicate-entry|%s is twice in the %s timer of height %d", kind, w.names[a], kind, th))
+				}
 				have[hk{th, a}] = true
 			}
 		}
-		var msgs []string
 		for k := range need {
 			if !have[k] {
 				msgs = append(msgs, fmt.Sprintf("%s-without-timer|%s has a pending %s expiring at %d but is not in the timer of that height", kind, w.names[k.a], kind, k.h))
@@ -993,10 +1122,7 @@ func (w *c34World) check(pre, post *c34Obs, op *c34Op, ok bool, who int, st *c34
 		}
 		for k := range have {
 			if !need[k] {
-				nm := "?"
-				if k.a >= 0 {
-					nm = w.names[k.a]
-				}
+				nm := w.names[k.a]
 				msgs = append(msgs, fmt.Sprintf("%s-timer-without-entry|%s is in the %s timer of height %d but has no %s expiring then", kind, nm, kind, k.h, kind))
 			}
 		}
@@ -1059,6 +1185,15 @@ func (e *c34Explorer) opsOf(names []string) ([]int, error) {
 
 // expand re-creates the state reached by hist (prefix first) on a fresh layer
 // and applies every operation of the alphabet to it.
+// applySafe is apply with every panic (real code, or the observation of a corrupted real state)
+// turned into a violation of the transition.
+func (w *c34World) applySafe(sim *simulatorImpl, op *c34Op, pre *c34Obs, st *c34Stats, check bool) (post *c34Obs, viol []c34Viol, enabled bool, herr error) {
+	if p := ev.Catch(func() { post, viol, enabled, herr = w.apply(sim, op, pre, st, check) }); p != "" {
+		return pre, append(viol, c34Viol{"panic:" + c34PanicClass(p), fmt.Sprintf("%s from height %d panicked: %s", op.Name, pre.height, p)}), true, nil
+	}
+	return
+}
+
 func (e *c34Explorer) expand(w *c34World, hist []int, checkReplay bool, st *c34Stats) (children []c34Child, replayViol []c34Viol, herr error) {
 	layer := db.NewLayerDB(w.root)
 	sim, err := w.open(w.base, layer)
@@ -1076,7 +1211,7 @@ func (e *c34Explorer) expand(w *c34World, hist []int, checkReplay bool, st *c34S
 			s = st
 		}
 		var v []c34Viol
-		obs, v, _, herr = w.apply(sim, &e.ops[oi], obs, s, checkReplay)
+		obs, v, _, herr = w.applySafe(sim, &e.ops[oi], obs, s, checkReplay)
 		if herr != nil {
 			return nil, nil, herr
 		}
@@ -1086,7 +1221,7 @@ func (e *c34Explorer) expand(w *c34World, hist []int, checkReplay bool, st *c34S
 	}
 	for oi := range e.ops {
 		c := c34Clone(sim)
-		post, v, enabled, herr := w.apply(c, &e.ops[oi], obs, st, true)
+		post, v, enabled, herr := w.applySafe(c, &e.ops[oi], obs, st, true)
 		if herr != nil {
 			return nil, nil, herr
 		}
@@ -1096,9 +1231,43 @@ func (e *c34Explorer) expand(w *c34World, hist []int, checkReplay bool, st *c34S
 		if post.foreign != "" {
 			return nil, nil, fmt.Errorf("account outside the closed universe: %s", post.foreign)
 		}
-		children = append(children, c34Child{op: oi, key: c34Key(c), viol: v})
+		key := ""
+		if p := ev.Catch(func() { key = c34Key(c) }); p != "" {
+			v = append(v, c34Viol{"panic:" + c34PanicClass(p), "state key: " + p})
+		}
+		children = append(children, c34Child{op: oi, key: key, viol: v})
+	}
+	// persistence: the older state (still alive, every child was derived from its snapshot) must be
+	// exactly what it was, both through its live snapshot objects and when re-opened from its hashes.
+	want := obs.digest()
+	var selfV []c34Viol
+	if p := ev.Catch(func() {
+		if got := w.observe(sim).digest(); got != want {
+			selfV = append(selfV, c34Viol{"older-state-changed-after-younger-states-were-derived", "live snapshot differs:\n" + c34FirstDiff(want, got)})
+		}
+		re, err := w.open(c34HandleOf(sim), layer)
+		if err != nil {
+			selfV = append(selfV, c34Viol{"state-cannot-be-reopened-from-its-hashes", err.Error()})
+		} else if got := w.observe(re).digest(); got != want {
+			selfV = append(selfV, c34Viol{"state-reopened-from-hashes!=live-state", c34FirstDiff(want, got)})
+		}
+	}); p != "" {
+		selfV = append(selfV, c34Viol{"panic:" + c34PanicClass(p), "observing the older state again: " + p})
+	}
+	if len(selfV) > 0 {
+		children = append(children, c34Child{op: -1, viol: selfV})
 	}
 	return
+}
+
+func c34FirstDiff(a, b string) string {
+	la, lb := strings.Split(a, "\n"), strings.Split(b, "\n")
+	for i := 0; i < len(la) && i < len(lb); i++ {
+		if la[i] != lb[i] {
+			return "was: " + la[i] + "\nnow: " + lb[i]
+		}
+	}
+	return "length differs"
 }
 
 func (e *c34Explorer) names(hist []int) []string {
@@ -1114,7 +1283,7 @@ func TestVerifC34(t *testing.T) {
 	log.GlobalLogger().SetLevel(log.FatalLevel)
 	log.GlobalLogger().SetConsoleLevel(log.FatalLevel)
 	r := ev.Start(t, "C34", "model_checking")
-	r.Rule("state = (world state hash, validator hash, extension hashes, height) of the real simulator; transition = one operation of the 24-op alphabet " +
+	r.Rule("state = (world state hash, validator hash, extension hashes, height) of the real simulator; transition = one operation of the 26-op alphabet " +
 		"(1 block, or the blocks up to the term end / next timer expiry), every block checked; BFS with exact-hash dedup up to the depth bound from each base state; " +
 		"non-trivial = distinct reached state")
 	r.Assume("closed universe: 6 P-Reps, 6 bonders, 4 background delegators, users U and V, treasury, system, governance, 4 node addresses; the supply equation is asserted on the base state",
@@ -1175,19 +1344,40 @@ func TestVerifC34(t *testing.T) {
 			r.Finish(false)
 			return
 		}
+		// replay exactly as the exploration does: re-create the parent state, derive every child
+		// from it (the recorded transition is one of them), then expand the reached state itself.
 		var st c34Stats
 		w := <-ex.pool
-		layer := db.NewLayerDB(w.root)
-		sim, _ := w.open(w.base, layer)
-		obs := w.observe(sim)
-		for i, oi := range append(pre, hist...) {
-			var v []c34Viol
-			obs, v, _, _ = w.apply(sim, &ex.ops[oi], obs, &st, i >= len(pre))
-			r.Eval(1)
+		full := append(append([]int(nil), pre...), hist...)
+		report := func(v []c34Viol) {
 			for _, x := range v {
 				r.Violation(x.sig, x.detail, &c)
 			}
 		}
+		if p := ev.Catch(func() {
+			if len(hist) > 0 {
+				last := hist[len(hist)-1]
+				ch, rv, herr := ex.expand(w, full[:len(full)-1], true, &st)
+				r.Sanity(herr == nil, "replay: %v", herr)
+				report(rv)
+				for _, x := range ch {
+					if x.op == last || x.op < 0 {
+						report(x.viol)
+					}
+				}
+			}
+			ch, rv, herr := ex.expand(w, full, len(hist) == 0, &st)
+			r.Sanity(herr == nil, "replay: %v", herr)
+			report(rv)
+			for _, x := range ch {
+				if x.op < 0 {
+					report(x.viol)
+				}
+			}
+		}); p != "" {
+			r.Violation("panic:"+c34PanicClass(p), p, &c)
+		}
+		r.Eval(len(full))
 		r.States(1)
 		r.Transitions(len(hist))
 		r.Sample(&c)
@@ -1206,7 +1396,7 @@ func TestVerifC34(t *testing.T) {
 	// schedule: (base index, depth to reach). Thorough first repeats the quick bounds for every
 	// base and then deepens, so that a time-capped run still covers every base.
 	type step struct{ base, depth int }
-	sched := []step{{0, 4}, {1, 3}, {2, 3}, {3, 3}, {4, 3}, {5, 3}}
+	sched := []step{{0, 3}, {1, 3}, {2, 3}, {3, 3}, {4, 3}, {5, 3}, {0, 4}}
 	if r.Thorough() {
 		sched = append(sched, step{1, 4}, step{2, 4}, step{3, 4}, step{4, 4}, step{5, 4}, step{0, 5}, step{5, 5}, step{1, 5}, step{2, 5}, step{3, 5}, step{4, 5})
 	}
@@ -1268,7 +1458,12 @@ func TestVerifC34(t *testing.T) {
 				defer func() { ex.pool <- w }()
 				var ls c34Stats
 				full := append(append([]int(nil), sr.prefix...), frontier[i].hist...)
-				ch, rv, herr := ex.expand(w, full, first, &ls)
+				var ch []c34Child
+				var rv []c34Viol
+				var herr error
+				if p := ev.Catch(func() { ch, rv, herr = ex.expand(w, full, first, &ls) }); p != "" {
+					ch = append(ch, c34Child{op: -1, viol: []c34Viol{{"panic:" + c34PanicClass(p), "while re-creating / expanding the state: " + p}}})
+				}
 				if herr != nil {
 					r.Sanity(false, "%s %v: %v", b.name, ex.names(full), herr)
 					atomic.StoreInt32(&stop, 1)
@@ -1292,7 +1487,10 @@ func TestVerifC34(t *testing.T) {
 				// a partially expanded level is discarded (its violations, if any, are still reported)
 				for i := range frontier {
 					for _, c := range results[i] {
-						nh := append(append([]int(nil), frontier[i].hist...), c.op)
+						nh := append([]int(nil), frontier[i].hist...)
+						if c.op >= 0 {
+							nh = append(nh, c.op)
+						}
 						for _, v := range c.viol {
 							r.Violation(v.sig, v.detail+" | "+b.name+" + "+strings.Join(ex.names(nh), ", "), &c34Case{Base: b.name, Prefix: b.prefix, History: ex.names(nh)})
 						}
@@ -1309,6 +1507,12 @@ func TestVerifC34(t *testing.T) {
 					r.Violation(v.sig, v.detail+" | while building base "+b.name, &c34Case{Base: b.name, Prefix: nil, History: b.prefix})
 				}
 				for _, c := range results[i] {
+					if c.op < 0 { // violations of the persistence oracle for the expanded state itself
+						for _, v := range c.viol {
+							r.Violation(v.sig, v.detail+" | "+b.name+" + "+strings.Join(ex.names(frontier[i].hist), ", "), &c34Case{Base: b.name, Prefix: b.prefix, History: ex.names(frontier[i].hist)})
+						}
+						continue
+					}
 					sr.trans++
 					r.Eval(1)
 					nh := append(append([]int(nil), frontier[i].hist...), c.op)
